@@ -159,9 +159,84 @@ fn c03_text_roundtrip_bounded(seed: u64) {
            &[s(P32E2::from_bits(0x4000_0001)), s(P32E2::NAR), s(P32E2::from_bits(0x8000_0001)), s(P32E2::from_bits(0x0000_0003))]);
 }
 
+// ---- C13, widths the verifier does not reach (N >= 13): BOUNDED native evaluation of the same contracts on
+// structured pseudo-random operands (seeded).  Labelled bounded; never counted as proved.
+fn mix(mut z: u64) -> u64 {
+    z = z.wrapping_add(0x9E37_79B9_7F4A_7C15);
+    z = (z ^ (z >> 30)).wrapping_mul(0xBF58_476D_1CE4_E5B9);
+    z = (z ^ (z >> 27)).wrapping_mul(0x94D0_49BB_1331_11EB);
+    z ^ (z >> 31)
+}
+/// an N-bit pattern (left-aligned in u32) with a structured regime: long runs, all-ones / all-zero tails, ties
+fn structured(n: u32, r: u64) -> u32 {
+    let reg = (r % (n as u64)) as u32;              // regime run length 0..n-1
+    let tail = (r >> 8) as u32;
+    let kind = (r >> 40) & 7;
+    let body: u32 = match kind {
+        0 => 0x7fff_ffffu32 >> reg,                   // 0..01..1
+        1 => (0x7fff_ffffu32 >> reg) ^ (tail >> (reg + 1).min(31)),
+        2 => 0x4000_0000u32 >> reg,                   // 0..010..0
+        3 => (0x4000_0000u32 >> reg) | (tail >> (reg + 2).min(31)),
+        4 => !(0x7fff_ffffu32 >> reg) & 0x7fff_ffff,  // 1..10..0
+        5 => (!(0x7fff_ffffu32 >> reg) & 0x7fff_ffff) | (tail >> (reg + 1).min(31)),
+        _ => tail & 0x7fff_ffff,
+    };
+    let v = if (r >> 44) & 1 == 1 { body.wrapping_neg() } else { body };
+    if n == 32 { v } else { v & ((!0u32) << (32 - n)) }
+}
+macro_rules! c13_wide {
+    ($fname:ident, $PX:ident, $es:expr, $sqrt:expr, [$($n:literal),*]) => {
+        fn $fname(seed: u64) -> (u64, u64, Vec<u64>) {
+            let mut total = (0u64, 0u64, Vec::new());
+            $(
+                let r = sweep(1 << 18, move |i| {
+                    let n: u32 = $n;
+                    let (a, b, c) = (structured(n, mix(i ^ seed ^ 0x11)), structured(n, mix(i.wrapping_mul(3) ^ seed ^ 0x22)), structured(n, mix(i.wrapping_mul(7) ^ seed ^ 0x33)));
+                    let (pa, pb, pc) = ($PX::<$n>::from_bits(a), $PX::<$n>::from_bits(b), $PX::<$n>::from_bits(c));
+                    let (xa, xb, xc) = (px(a, n), px(b, n), px(c, n));
+                    let mut ok = true;
+                    let chk = |r: u32, good: &dyn Fn(u64) -> bool| px_closed(r, n) && good(px(r, n));
+                    ok &= chk((pa + pb).to_bits(), &|r| add_ok(xa, xb, r, n, $es));
+                    ok &= chk((pa - pb).to_bits(), &|r| sub_ok(xa, xb, r, n, $es));
+                    ok &= chk((pa * pb).to_bits(), &|r| mul_ok(xa, xb, r, n, $es));
+                    ok &= chk((pa / pb).to_bits(), &|r| div_ok(xa, xb, r, n, $es));
+                    ok &= chk(pa.mul_add(pb, pc).to_bits(), &|r| fma_ok::<5, 320>(xa, xb, xc, r, n, $es, FmaOp::Add));
+                    ok &= chk(pa.mul_sub(pb, pc).to_bits(), &|r| fma_ok::<5, 320>(xa, xb, xc, r, n, $es, FmaOp::SubC));
+                    ok &= chk(pc.sub_product(pa, pb).to_bits(), &|r| fma_ok::<5, 320>(xa, xb, xc, r, n, $es, FmaOp::SubProd));
+                    ok &= chk($PX::<$n>::round(pa).to_bits(), &|r| intfn_ok(xa, r, n, $es, IMode::Round));
+                    if $sqrt { ok &= chk(c13_sqrt(a, n), &|r| sqrt_ok(xa, r, n, $es)); }
+                    (ok, a != 0 && b != 0)
+                });
+                total.0 += r.0 * 8; total.1 += r.1;
+                total.2.extend(r.2.iter().map(|x| x | (($n as u64) << 32)));
+            )*
+            total
+        }
+    };
+}
+fn c13_sqrt(a: u32, n: u32) -> u32 {
+    macro_rules! d { ($($k:literal),*) => { match n { $($k => PxE2::<$k>::from_bits(a).sqrt().to_bits(),)* _ => 0 } } }
+    d!(13, 14, 15, 16, 17, 18, 19, 20, 21, 22, 23, 24, 25, 26, 27, 28, 29, 30, 31, 32)
+}
+c13_wide!(c13_wide_e2, PxE2, 2, true, [13, 14, 15, 16, 17, 18, 19, 20, 21, 22, 23, 24, 25, 26, 27, 28, 29, 30, 31, 32]);
+c13_wide!(c13_wide_e1, PxE1, 1, false, [13, 14, 15, 16, 17, 18, 19, 20, 21, 22, 23, 24, 25, 26, 27, 28, 29, 30, 31, 32]);
+
+// @n name=c13_wide_e2_bounded props=C13 fn=PxE2<13..=32>::{add,sub,mul,div,mul_add,mul_sub,sub_product,sqrt,round} tier=quick t=1200 mode=B
+fn c13_wide_e2_bounded(seed: u64) {
+    let r = c13_wide_e2(seed);
+    report("c13_wide_e2_bounded", "B", r, &["failing input index | N << 32; operands are structured(N, mix(i ^ seed ..))".to_string()]);
+}
+// @n name=c13_wide_e1_bounded props=C13 fn=PxE1<13..=32>::{add,sub,mul,div,mul_add,mul_sub,sub_product,round} tier=quick t=1200 mode=B
+fn c13_wide_e1_bounded(seed: u64) {
+    let r = c13_wide_e1(seed);
+    report("c13_wide_e1_bounded", "B", r, &["failing input index | N << 32; operands are structured(N, mix(i ^ seed ..))".to_string()]);
+}
+
 fn run(name: &str, _seed: u64) -> bool {
     match name {
         "c06_p32_sqrt_exhaustive" => c06_p32_sqrt_exhaustive(),
+        "c13_wide_e2_bounded" => c13_wide_e2_bounded(_seed),
+        "c13_wide_e1_bounded" => c13_wide_e1_bounded(_seed),
         "c03_text_roundtrip_bounded" => c03_text_roundtrip_bounded(_seed),
         "c11_p16_exp_exhaustive" => c11_p16_exp_exhaustive(),
         "c11_p16_exp2_exhaustive" => c11_p16_exp2_exhaustive(),
